@@ -635,6 +635,10 @@ Proof.
     destruct (String.eqb h ""); [reflexivity|].
     destruct (String.eqb_spec h r) as [->|Hne]; cbn [negb andb]; [|reflexivity].
     rewrite (Hbk r _ _ HB). destruct (has_backend w2 r n (st_port s)); reflexivity.
+  - (* Gateway API backendRef *)
+    apply (get_service_gw_agree B); auto.
+  - (* Gateway API certificateRef *)
+    apply (get_tls_agree B); auto.
 Qed.
 
 (* all the sites, whatever the other namespaces (B included) reference before or after *)
